@@ -64,6 +64,51 @@ static void algebra_case(Rng &rng, Stats &st, uint64_t k, bool thorough) {
     auto Ai = A.inverse();
     out_q("tab isinv " + wa + " " + wire_tab<W>(Ai), "1");
     if (!Ai.satisfies_invariants()) out_x("inverse() result violates the invariants");
+    // row-wise accessors of the tableau and of its inverse (what the simulators use instead of forming the inverse): each must be
+    // the corresponding row / entry of the tableau that the oracle judged above
+    {
+        for (size_t q = 0; q < n; q++) {
+            if (PauliString<W>(Ai.xs[q]) != A.inverse_x_output(q)) out_x("inverse_x_output(" + std::to_string(q) + ") is not the X row of inverse()");
+            if (PauliString<W>(Ai.zs[q]) != A.inverse_z_output(q)) out_x("inverse_z_output(" + std::to_string(q) + ") is not the Z row of inverse()");
+            if (Ai.y_output(q) != A.inverse_y_output(q)) out_x("inverse_y_output(" + std::to_string(q) + ") is not inverse().y_output");
+            if (A.y_output(q) != A.eval_y_obs(q)) out_x("y_output differs from eval_y_obs");
+            auto ux = A.inverse_x_output(q, true), uz = A.inverse_z_output(q, true);
+            if (ux.xs != Ai.xs[q].xs || ux.zs != Ai.xs[q].zs || uz.xs != Ai.zs[q].xs || uz.zs != Ai.zs[q].zs) out_x("inverse_*_output(skip_sign) letters differ from inverse()");
+        }
+        // Y output: the oracle applies the tableau to Y_q
+        size_t q = rng.below(n);
+        PauliString<W> yq(n);
+        yq.xs[q] = true;
+        yq.zs[q] = true;
+        out_q("tab apply " + wa + " " + ps_str<W>(yq), ps_str<W>(A.y_output(q)));
+        // Pauli products as tableaus
+        auto pp = rand_ps<W>(rng, n);
+        auto T = Tableau<W>::from_pauli_string(pp);
+        if (!T.is_pauli_product()) out_x("from_pauli_string result is not recognised as a Pauli product");
+        {   // (the sign of p is a global phase of the operation: only the letters come back)
+            auto back = T.to_pauli_string();
+            if (back.xs != pp.xs || back.zs != pp.zs) out_x("to_pauli_string(from_pauli_string(p)) has other letters than p");
+        }
+        auto probe = rand_ps<W>(rng, n);
+        {
+            PauliString<W> img = T(probe.ref());
+            bool anti = !pp.ref().commutes(probe.ref());
+            PauliString<W> want = probe;
+            want.sign ^= anti;
+            if (img != want) out_x("the tableau of a Pauli product does not conjugate " + probe.str() + " to its signed self");
+        }
+        auto B2 = A;
+        B2.prepend_pauli_product(pp.ref());
+        if (B2 != T.then(A)) out_x("prepend_pauli_product differs from from_pauli_string(p).then(T)");
+        if (n <= 6 && A.is_pauli_product() != (A.then(A) == Tableau<W>(n) && [&]() { for (size_t k = 0; k < n; k++) { PauliString<W> x(A.xs[k]), z(A.zs[k]); x.sign = false; z.sign = false; PauliString<W> ex(n), ez(n); ex.xs[k] = true; ez.zs[k] = true; if (x != ex || z != ez) return false; } return true; }()))
+            out_x("is_pauli_product disagrees with the rows");
+        // expand: identity on the new qubits
+        auto E = A;
+        size_t bigger = n + 1 + rng.below(70);
+        E.expand(bigger, rng.chance(0.5) ? 1.0 : 1.5);
+        if (E != A + Tableau<W>(bigger - n)) out_x("expand(" + std::to_string(bigger) + ") differs from the direct sum with the identity");
+        st.hit("accessors.checked");
+    }
     auto Aiu = A.inverse(true);  // unsigned: letters must agree
     for (size_t q = 0; q < n; q++)
         if (Aiu.xs[q].xs != Ai.xs[q].xs || Aiu.xs[q].zs != Ai.xs[q].zs || Aiu.zs[q].xs != Ai.zs[q].xs || Aiu.zs[q].zs != Ai.zs[q].zs) {
